@@ -473,3 +473,72 @@ pub fn run_static_opt(tc: &dtr::TestCase, max: usize, seed: u64, budget: u64, ca
         Err(Caught::Watchdog) => StaticObs::Watchdog,
     }
 }
+
+/// A driver that answers every call with the same values and can be sent to another thread.
+struct ConstDriver<'a> {
+    outs: Vec<(&'a dtr::Signal, dtr::OutputValue)>,
+}
+
+impl<'a> TestDriver for ConstDriver<'a> {
+    type Error = Fault;
+    fn write_input_and_read_output(&mut self, _inputs: &[dtr::InputEntry<'_>]) -> Result<Vec<dtr::OutputEntry<'_>>, Fault> {
+        Ok(self.outs.iter().map(|(s, v)| dtr::OutputEntry { signal: s, value: *v }).collect())
+    }
+}
+
+/// The iterator is created and advanced `on_first` times on the calling thread, then moved to a
+/// freshly spawned thread for the remaining calls (at most `total` in all). One line per call:
+/// the item and what `vars()` returns after it.
+pub fn run_across_threads(tc: &dtr::TestCase, answer: &[(String, V)], on_first: usize, total: usize) -> Vec<String> {
+    hooks::set_seed_override(Some(1));
+    let mut driver = ConstDriver { outs: answer.iter().filter_map(|(n, v)| tc.signals.iter().find(|s| &s.name == n).map(|s| (s, v.to_output()))).collect() };
+    let mut lines = vec![];
+    let step = |it: &mut dtr::DataRowIterator<'_, '_, ConstDriver<'_>>| -> (String, bool) {
+        let item = item_of(it.next());
+        let end = item == ObsItem::End;
+        let mut v: Vec<(String, i64)> = it.vars().into_iter().collect();
+        v.sort();
+        (format!("{} vars {:?}", item.brief(), v), end)
+    };
+    let r = std::panic::catch_unwind(std::panic::AssertUnwindSafe(|| {
+        let Ok(mut it) = tc.try_iter(&mut driver) else {
+            lines.push("construction failed".to_string());
+            return;
+        };
+        let mut ended = false;
+        for _ in 0..on_first.min(total) {
+            let (l, e) = step(&mut it);
+            lines.push(l);
+            if e {
+                ended = true;
+                break;
+            }
+        }
+        if !ended && on_first < total {
+            let rest = std::thread::scope(|s| {
+                s.spawn(move || {
+                    let mut out = vec![];
+                    for _ in on_first..total {
+                        let (l, e) = step(&mut it);
+                        out.push(l);
+                        if e {
+                            break;
+                        }
+                    }
+                    out
+                })
+                .join()
+            });
+            match rest {
+                Ok(v) => lines.extend(v),
+                Err(p) => lines.push(format!("PANIC on the second thread: {}", p.downcast_ref::<String>().cloned().or(p.downcast_ref::<&str>().map(|s| s.to_string())).unwrap_or_default())),
+            }
+        }
+    }));
+    if r.is_err() {
+        lines.push("PANIC".to_string());
+    }
+    hooks::set_seed_override(None);
+    let _ = hooks::take_draw_log();
+    lines
+}
